@@ -22,6 +22,9 @@ type c16SDK struct {
 	created   map[string]int
 	callbacks int // registered and not unregistered
 	regCalls  int
+	regs      []*c16Reg
+	observed  map[string]int // observations the SDK accepted, per instrument name
+	foreign   int            // observations made with an instrument that is not the SDK's own
 }
 
 func c16NewSDK() *c16SDK { return &c16SDK{adds: map[string]int{}, created: map[string]int{}} }
@@ -103,6 +106,7 @@ type c16Reg struct {
 	embedded.Registration
 	sdk  *c16SDK
 	done bool
+	f    metric.Callback
 }
 
 func (r *c16Reg) Unregister() error {
@@ -115,12 +119,51 @@ func (r *c16Reg) Unregister() error {
 	return nil
 }
 
-func (m *c16Meter) RegisterCallback(metric.Callback, ...metric.Observable) (metric.Registration, error) {
+func (m *c16Meter) RegisterCallback(f metric.Callback, _ ...metric.Observable) (metric.Registration, error) {
 	m.sdk.mu.Lock()
 	m.sdk.callbacks++
 	m.sdk.regCalls++
+	r := &c16Reg{sdk: m.sdk, f: f}
+	m.sdk.regs = append(m.sdk.regs, r)
 	m.sdk.mu.Unlock()
-	return &c16Reg{sdk: m.sdk}, nil
+	return r, nil
+}
+
+// the recording SDK's collection: every callback still registered is run with
+// an observer that accepts only the SDK's own instruments (as a real SDK does)
+type c16Observer struct {
+	embedded.Observer
+	sdk *c16SDK
+}
+
+func (o c16Observer) ObserveInt64(i metric.Int64Observable, _ int64, _ ...metric.ObserveOption) {
+	if x, ok := i.(*c16IObs); ok {
+		o.sdk.observed[x.name]++
+	} else {
+		o.sdk.foreign++
+	}
+}
+
+func (o c16Observer) ObserveFloat64(i metric.Float64Observable, _ float64, _ ...metric.ObserveOption) {
+	if x, ok := i.(*c16FObs); ok {
+		o.sdk.observed[x.name]++
+	} else {
+		o.sdk.foreign++
+	}
+}
+
+func (s *c16SDK) collect() {
+	s.mu.Lock()
+	regs := append([]*c16Reg(nil), s.regs...)
+	s.mu.Unlock()
+	if s.observed == nil {
+		s.observed = map[string]int{}
+	}
+	for _, r := range regs {
+		if !r.done {
+			r.f(context.Background(), c16Observer{sdk: s})
+		}
+	}
 }
 
 // create instrument of kind k on meter m and return a function that records once
@@ -557,4 +600,52 @@ func HarnessC16State() {
 			vndAssert(psdk.injects == before+1, "propagator-obtained-earlier-forwards-after-installation")
 		}
 	}
+}
+
+// ---- C16.observe: observations made in callbacks reach the SDK with the SDK's
+// own instruments, for instruments created before and after the installation
+// and callbacks registered before or after it, in either argument order
+func HarnessC16Observe() {
+	sdk := c16NewSDK()
+	mp := &meterProvider{}
+	m := mp.Meter("m")
+	pre, _ := m.Int64ObservableCounter("pre")
+	cb := func(pre metric.Int64Observable, post metric.Int64Observable) metric.Callback {
+		return func(_ context.Context, o metric.Observer) error {
+			o.ObserveInt64(pre, 1)
+			if post != nil {
+				o.ObserveInt64(post, 2)
+			}
+			return nil
+		}
+	}
+	early := vndChoice(2) == 1
+	if early {
+		// registered before the installation (only the early instrument exists)
+		_, err := m.RegisterCallback(cb(pre, nil), pre)
+		vndAssert(err == nil, "register-no-error")
+	}
+	mp.setDelegate(sdk)
+	post, _ := m.Int64ObservableGauge("post")
+	late := vndChoice(3)
+	switch late {
+	case 1:
+		_, err := m.RegisterCallback(cb(pre, post), pre, post)
+		vndAssert(err == nil, "register-no-error")
+	case 2:
+		_, err := m.RegisterCallback(cb(pre, post), post, pre)
+		vndAssert(err == nil, "register-no-error")
+	}
+	sdk.collect()
+	vndReach("collected")
+	wantPre, wantPost := 0, 0
+	if early {
+		wantPre++
+	}
+	if late != 0 {
+		wantPre++
+		wantPost++
+	}
+	vndAssert(sdk.foreign == 0, "observations-reach-the-sdk-with-its-own-instruments")
+	vndAssert(sdk.observed["pre"] == wantPre && sdk.observed["post"] == wantPost, "every-observation-made-after-installation-reaches-the-sdk")
 }
